@@ -1,7 +1,7 @@
 """C05 - completion. Proof (partial, safety): coq/Props/C05.v. Tie: trace validation incl. the quiescence test (deadlock detector on the real scheduler, "nothing enabled" on the model)."""
 from .. import common, sched_check, monitors, gen, tracelib
 
-KINDS = ['uncertified', 'impl_err:deadlock', 'impl_err:internal:assert', 'impl_err:internal:backwards', 'impl_err:internal:past', 'model_err:backwards', 'model_err:past', 'notdone', 'quiesce_enabled', 'tables', 'tables_anc']
+KINDS = ['uncertified', 'uncertified_flat', 'impl_err:deadlock', 'impl_err:internal:assert', 'impl_err:internal:backwards', 'impl_err:internal:past', 'model_err:backwards', 'model_err:past', 'notdone', 'quiesce_enabled', 'tables', 'tables_anc']
 
 
 def P_C05(ctx, log, outcome_kind='ok', val=None, **kw):
@@ -29,6 +29,7 @@ def features(case, run, val):
     f += sorted({'edge:' + e['kind'] for e in case['edges']})
     if any(e.get('async') for e in case['edges']): f.append('async')
     f.append('outcome:' + val.impl_kind)
+    if getattr(val, 'flat_certified', None): f.append('flat_certified (premise of C05_progress_flat holds)')
     return f
 
 
